@@ -32,13 +32,16 @@ from fractions import Fraction as F
 # symbol -> (factor to the coherent SI unit, dimension label); exact by definition of the prefixes / of the erg
 UNITS = {
     "m": (F(1), "L"), "cm": (F(1, 100), "L"), "mm": (F(1, 1000), "L"), "km": (F(1000), "L"),
-    "s": (F(1), "T"), "ms": (F(1, 1000), "T"),
+    "s": (F(1), "T"), "ms": (F(1, 1000), "T"), "us": (F(1, 10 ** 6), "T"), "ns": (F(1, 10 ** 9), "T"),
     "J": (F(1), "E"), "erg": (F(1, 10 ** 7), "E"), "kJ": (F(1000), "E"),
     "g": (F(1, 1000), "M"), "kg": (F(1), "M"),
 }
 EQ_RTOL = F(1, 10 ** 6)          # published Numeric.PRECISION ("EQUAL_PRECISION" of the documentation)
 GREY_LO = F(1, 10 ** 8)          # relative offsets between GREY_LO and GREY_HI are never generated (guard)
 GREY_HI = F(9, 10 ** 6)
+ABS_GUARD = F(5, 10 ** 8)        # differing values closer than this are never generated: numpy's implicit absolute
+#                                  tolerance (1e-8) would call them equal although they differ relatively
+NONE = {"none": True}            # the literal `none`
 
 
 class RefError(Exception):
@@ -55,6 +58,8 @@ class Undemanded(Exception):
 
 # --------------------------------------------------------------------------------------------- rendering
 def _leaf_text(v, typ):
+    if isinstance(v, dict) and "none" in v:
+        return "none"
     if isinstance(v, dict) and "s" in v:
         return v["s"]
     if isinstance(v, bool):
@@ -94,6 +99,8 @@ def render_value(v, typ):
         return render_ref(v["ref"])
     if isinstance(v, list):
         return _json_leafs(v, typ)
+    if isinstance(v, dict) and "none" in v:
+        return "none"
     if isinstance(v, dict) and "s" in v:
         s = v["s"]
         return s if (s and " " not in s and "#" not in s and v.get("bare")) else "'" + s + "'"
@@ -266,6 +273,8 @@ def leaf(v, typ):
     """generator leaf -> reference value"""
     if isinstance(v, list):
         return [leaf(x, typ) for x in v]
+    if isinstance(v, dict) and "none" in v:
+        return None
     if typ in ("int", "float"):
         if not isinstance(v, str):
             raise RefError("numeric leaf must be decimal text: %r" % (v,))
@@ -343,8 +352,8 @@ def close(a, b):
         raise RefError("comparison with zero is not generated")
     if GREY_LO < d < GREY_HI:
         raise RefError("relative offset %s in the grey zone" % float(d))
-    if abs(b) < F(1, 10):
-        raise RefError("magnitude below 0.1 (absolute tolerance of the library would matter)")
+    if d > EQ_RTOL and abs(a - b) < ABS_GUARD:
+        raise RefError("values differ by less than 5e-8 absolutely (implicit absolute tolerance would matter)")
     return d <= EQ_RTOL
 
 
@@ -422,6 +431,8 @@ def satisfied(env, node):
     if node.value is None:
         if node.declared:
             bad.append("declaration")
+        elif node.options or node.cond is not None or node.fmt is not None:
+            raise Undemanded("constraints of an empty (none) value")
         return bad
     if node.options:
         if isinstance(node.value, list):
@@ -492,12 +503,18 @@ def _resolve(env, val, typ, host_unit):
         if src.type != typ:
             raise Undemanded("injection across data types")
         if src.value is None:
-            raise Undemanded("injection of an empty value")
+            if src.declared or r.get("slice") or src.dims:
+                raise Undemanded("injection from a declared-only node / slice or array of an empty value")
+            return None, (host_unit if host_unit else src.unit)      # the current value is `none`
         v = apply_slice(_cp(src.value), r.get("slice"))
         if isinstance(v, str) and v == "":
             raise Undemanded("empty string")
         return v, (host_unit if host_unit else src.unit)
     return leaf(val, typ), host_unit
+
+
+def _is_ref(val):
+    return isinstance(val, dict) and "ref" in val
 
 
 def step(env, st):
@@ -519,6 +536,10 @@ def step(env, st):
                 raise Reject("data type changed")
             if st["val"] is None:
                 raise Undemanded("re-declaration")
+            if _is_ref(st["val"]) and st["val"]["ref"].get("slice"):
+                # observed: the slice is ignored there (the whole array is assigned); exotic combination of two
+                # documented features, recorded as an observation and not judged
+                raise Undemanded("typed re-definition by a sliced injection")
             _assign(env, node, st["val"], st.get("unit"))
             env.last = None          # property lines after a re-definition: not demanded
             return
@@ -528,7 +549,11 @@ def step(env, st):
             node.unit = st.get("unit")
         else:
             v, u = _resolve(env, st["val"], st["type"], st.get("unit"))
-            check_dims(node, v)
+            if v is None:
+                if node.dims or u is not None and not _is_ref(st["val"]):
+                    raise Undemanded("none for an array node / none written together with a unit")
+            else:
+                check_dims(node, v)
             node.value, node.unit = v, u
         env.nodes[p] = node
         env.last = p
@@ -608,6 +633,18 @@ def _assign(env, node, val, unit):
     if node.const:
         raise Reject("constant node")
     v, u = _resolve(env, val, node.type, unit)
+    if v is None:
+        # `none` empties the node; it is fully defined and keeps the unit of its definition
+        if node.dims or (u is not None and not _is_ref(val)):
+            raise Undemanded("none for an array node / none written together with a unit")
+        if u is not None and node.type in ("str", "bool"):
+            raise Reject("unit on str/bool")
+        if u is not None and node.unit is None:
+            raise Undemanded("unit given for a node defined without unit")
+        if u is not None and node.unit is not None and unit_info(env, u)[1] != unit_info(env, node.unit)[1]:
+            raise Undemanded("empty value carried in a unit of another dimension")
+        node.value, node.declared = None, False
+        return
     if u is not None and node.type in ("str", "bool"):
         raise Reject("unit on str/bool")
     if u is not None and node.unit is None:
@@ -618,7 +655,7 @@ def _assign(env, node, val, unit):
         if node.type == "int" and any(x.denominator != 1 for x in _flat(v)):
             raise Undemanded("int node assigned a non-integral converted value")
     check_dims(node, v)
-    node.value = v
+    node.value, node.declared = v, False
 
 
 def _flat(v):
@@ -706,6 +743,8 @@ def value_matches(obs, ref, typ, rel=1e-9):
             obs = obs.item()
     except Exception:
         pass
+    if ref is None or obs is None:
+        return ref is None and obs is None
     if isinstance(ref, list):
         if not isinstance(obs, (list, tuple)) or len(obs) != len(ref):
             return False
